@@ -1,9 +1,11 @@
 (** C11 - lemmas.  Part 1: the exact rational arithmetic of the checkers and its real-number meaning.
     Part 2: soundness of the optimality checkers (instances of Common/Convex.v).  Part 3: the
-    estimator-level statements (documented elastic-net objective, OLS).  Part 4: the intercept glue
-    (finding F7), the l1 threshold, weak duality of the reported gap. *)
+    estimator-level statements (documented elastic-net objective, OLS).  Part 4: exact statements over
+    the reals (OLS by orthogonality, the l1 threshold, the intercept glue = finding F7), followed by
+    non-vacuity examples.  Part 5: weak duality of the model's duality gap.  Part 6: the coordinate
+    update.  Part 7: the multi-task (group) checker. *)
 From Coq Require Import List ZArith QArith Qreals Reals Lra Lia Psatz Bool.
-From LinfaVerif Require Import Common.Num Common.QF Common.Convex C11.Model.
+From LinfaVerif Require Import Common.Num Common.NdSum Common.QF Common.Convex C11.Model.
 Import ListNotations.
 
 (* ------------------------------------------------------------------------------------------- *)
@@ -14,7 +16,7 @@ Lemma pos_strip2_eq a : forall d,
 Proof.
   induction a as [a IH | a IH |]; intros d; simpl; try reflexivity.
   destruct d as [d | d |]; simpl; try reflexivity.
-  specialize (IH d). rewrite !Pos2Z.inj_xO. lia.
+  specialize (IH d). lia.
 Qed.
 
 Lemma Qn2_eq q : Qn2 q == q.
@@ -120,14 +122,14 @@ Qed.
 (** * Part 2: soundness of the coordinate test and of [kkt_ok] *)
 Local Open Scope R_scope.
 
-Lemma sq_le_sqrt x e : x * x <= e -> Rabs x <= sqrt e.
+Lemma sq_le_sqrt x e : x * x <= e -> Rabs x <= R_sqrt.sqrt e.
 Proof.
   intros H. rewrite <- sqrt_Rsqr_abs. apply sqrt_le_1; unfold Rsqr; auto.
   - apply Rle_0_sqr.
   - pose proof (Rle_0_sqr x) as P. unfold Rsqr in P. lra.
 Qed.
 
-Definition eps_of (e2 : Q) : R := sqrt (Q2R e2).
+Definition eps_of (e2 : Q) : R := R_sqrt.sqrt (Q2R e2).
 
 Lemma qsgn_pos th : 0 < Q2R th -> Q2R (qsgn th) = 1.
 Proof.
@@ -150,13 +152,13 @@ Proof.
   unfold coord_ok, coord_cond, eps_of. intros H.
   destruct (Qeq_bool th 0) eqn:E.
   - apply Qeq_bool_R0 in E. repeat split; intros Hth; try lra.
-    apply orb_true_iff in H. rewrite E. replace (Q2R c - Q2R l2 * 0) with (Q2R c) by ring.
-    rewrite R_qsub, R_qmul, E in H.
-    replace (Q2R c - Q2R l2 * 0) with (Q2R c) in H by ring.
-    destruct H as [H | H].
-    + apply Qle_bool_R in H. rewrite R_qsub, R_qabs, R_0 in H.
+    rewrite E. replace (Q2R c - Q2R l2 * 0) with (Q2R c) by ring.
+    apply orb_true_iff in H. destruct H as [H | H]; apply Qle_bool_R in H.
+    + rewrite R_qsub, R_qabs, R_qsub, R_qmul, E, R_0 in H.
+      replace (Q2R c - Q2R l2 * 0) with (Q2R c) in H by ring.
       pose proof (sqrt_pos (Q2R e2)). lra.
-    + apply Qle_bool_R in H. rewrite R_qmul, !R_qsub, R_qabs in H.
+    + rewrite R_qmul, !R_qsub, !R_qabs, !R_qsub, !R_qmul, E in H.
+      replace (Q2R c - Q2R l2 * 0) with (Q2R c) in H by ring.
       apply sq_le_sqrt in H. unfold Rabs in H at 1.
       destruct (Rcase_abs (Rabs (Q2R c) - Q2R l1)); lra.
   - apply Qeq_bool_R0_false in E.
@@ -186,10 +188,8 @@ Proof.
     simpl in *; try discriminate; auto.
   apply andb_true_iff in H as [Hc H].
   apply all_nonneg_cons in N1 as [Ha N1]. apply all_nonneg_cons in N2 as [Hb N2].
-  repeat split; auto.
-  - unfold eps_of. apply sqrt_pos.
-  - apply coord_ok_sound; auto.
-  - apply IH; auto.
+  split; [exact Ha|]. split; [exact Hb|]. split; [unfold eps_of; apply sqrt_pos|].
+  split; [apply coord_ok_sound; exact Hc|]. apply IH; auto.
 Qed.
 
 Lemma all_len_R n cols : all_len n cols = true -> Forall (fun c => length c = n) (RQ2 cols).
@@ -216,4 +216,792 @@ Proof.
     { unfold RQ2, RQ. rewrite !map_map. apply map_ext. intros c. now rewrite R_qdot. }
     rewrite E. apply flags_sound; auto; rewrite map_length; auto.
   - now rewrite RQ_length.
+Qed.
+
+(* ------------------------------------------------------------------------------------------- *)
+(** * Part 3: estimator-level statements *)
+
+(** the documented objectives, over the reals; the design is given by its feature columns *)
+Definition predictions (cols : list (list R)) (n : nat) (w : list R) (b : R) : list R :=
+  vadd (lin n cols w) (repeat b n).
+Definition sse (cols : list (list R)) (y w : list R) (b : R) : R :=
+  sq (vsub y (predictions cols (length y) w b)).
+Definition l1norm (w : list R) : R := Rsum (map Rabs w).
+(** 1/(2n) |y - Xw - b|^2 + penalty * (l1_ratio |w|_1 + (1 - l1_ratio)/2 |w|_2^2) *)
+Definition enet_objective (cols : list (list R)) (y : list R) (penalty l1_ratio : R) (w : list R) (b : R) : R :=
+  / (2 * INR (length y)) * sse cols y w b + penalty * (l1_ratio * l1norm w + (1 - l1_ratio) / 2 * sq w).
+
+Lemma vadd_assoc a : forall b c, vadd (vadd a b) c = vadd a (vadd b c).
+Proof.
+  unfold vadd. induction a as [|x a IH]; intros [|y b] [|z c]; simpl; auto. f_equal; [lra|apply IH].
+Qed.
+
+Lemma lin_intercept n cols : forall w b, length w = length cols ->
+  lin n (cols ++ [repeat 1 n]) (w ++ [b]) = vadd (lin n cols w) (repeat b n).
+Proof.
+  induction cols as [|c cols IH]; intros [|t w] b L; simpl in L; try discriminate.
+  - simpl. clear. unfold vadd, vscale. induction n as [|n IHn]; simpl; auto. f_equal; [lra|exact IHn].
+  - simpl. rewrite IH by lia. now rewrite vadd_assoc.
+Qed.
+
+Lemma pen_intercept l1 l2 : forall w b,
+  pen (repeat l1 (length w) ++ [0]) (repeat l2 (length w) ++ [0]) (w ++ [b]) = l1 * l1norm w + l2 / 2 * sq w.
+Proof.
+  unfold l1norm, sq. induction w as [|t w IH]; intros b; simpl.
+  - unfold pen1. lra.
+  - rewrite IH. unfold pen1. lra.
+Qed.
+Lemma pen_plain l1 l2 : forall w,
+  pen (repeat l1 (length w)) (repeat l2 (length w)) w = l1 * l1norm w + l2 / 2 * sq w.
+Proof.
+  unfold l1norm, sq. induction w as [|t w IH]; simpl; [lra|]. rewrite IH. unfold pen1. lra.
+Qed.
+
+Lemma absdiff_app a : forall a' b b', length a' = length a ->
+  forall e eb, length e = length a ->
+  Rdot (e ++ [eb]) (absdiff (a' ++ [b']) (a ++ [b])) = Rdot e (absdiff a' a) + eb * Rabs (b' - b).
+Proof.
+  unfold absdiff. induction a as [|x a IH]; intros [|x' a'] b b' L [|e0 e] eb Le; simpl in *; try discriminate.
+  - lra.
+  - rewrite IH by lia. lra.
+Qed.
+
+Lemma objective_intercept cols y l1 l2 w b p : length w = length cols -> p = length w ->
+  objective (cols ++ [repeat 1 (length y)]) y (repeat l1 p ++ [0]) (repeat l2 p ++ [0]) (w ++ [b])
+  = / 2 * sse cols y w b + l1 * l1norm w + l2 / 2 * sq w.
+Proof.
+  intros L ->. unfold objective, residual, sse, predictions.
+  rewrite lin_intercept by auto. rewrite pen_intercept. lra.
+Qed.
+
+Lemma scaled_objective cols y penalty l1_ratio w b : (0 < length y)%nat ->
+  INR (length y) * enet_objective cols y penalty l1_ratio w b
+  = / 2 * sse cols y w b + (INR (length y) * penalty * l1_ratio) * l1norm w
+    + (INR (length y) * penalty * (1 - l1_ratio)) / 2 * sq w.
+Proof.
+  intros H. unfold enet_objective.
+  assert (0 < INR (length y)) by (apply lt_0_INR; lia). field. lra.
+Qed.
+
+Lemma RQ_app a b : RQ (a ++ b) = RQ a ++ RQ b.
+Proof. apply map_app. Qed.
+Lemma RQ_repeat q n : RQ (repeat q n) = repeat (Q2R q) n.
+Proof. induction n; simpl; auto. now rewrite IHn. Qed.
+
+(** elastic net, jointly in coefficients and intercept *)
+Lemma enet_ok_sound cols y w b l1 l2 e2s e2b penalty l1_ratio :
+  enet_ok cols y w b l1 l2 e2s e2b = true ->
+  Q2R l1 = INR (length y) * penalty * l1_ratio ->
+  Q2R l2 = INR (length y) * penalty * (1 - l1_ratio) ->
+  (0 < length y)%nat ->
+  forall (w' : list R) (b' : R), length w' = length w ->
+  enet_objective (RQ2 cols) (RQ y) penalty l1_ratio w' b'
+  >= enet_objective (RQ2 cols) (RQ y) penalty l1_ratio (RQ w) (Q2R b)
+     - (Rdot (EPS e2s) (absdiff w' (RQ w)) + eps_of e2b * Rabs (b' - Q2R b)) / INR (length y).
+Proof.
+  unfold enet_ok. intros H E1 E2 Hn w' b' L.
+  assert (Lens : length w = length cols /\ length e2s = length cols).
+  { unfold kkt_ok in H. repeat (apply andb_true_iff in H as [H ?]).
+    repeat match goal with E : Nat.eqb _ _ = true |- _ => apply Nat.eqb_eq in E end.
+    rewrite !app_length in *. simpl in *. lia. }
+  destruct Lens as [Lw Le].
+  pose proof (kkt_ok_sound _ _ _ _ _ _ H (w' ++ [b'])) as S.
+  rewrite !app_length in S. simpl in S. specialize (S ltac:(lia)).
+  unfold RQ2 in S. rewrite map_app in S. fold (RQ2 cols) in S. simpl in S.
+  unfold ones in S. rewrite !RQ_app, !RQ_repeat in S. simpl in S. rewrite R_1, R_0 in S.
+  unfold EPS in S. rewrite map_app in S. simpl in S. fold (EPS e2s) in S.
+  rewrite <- (RQ_length y) in S at 1 2.
+  assert (Lw' : length w' = length (RQ2 cols)) by (unfold RQ2; rewrite map_length; lia).
+  assert (LwR : length (RQ w) = length (RQ2 cols)) by (unfold RQ2; rewrite RQ_length, map_length; lia).
+  rewrite (objective_intercept (RQ2 cols) (RQ y) (Q2R l1) (Q2R l2) w' b' (length cols) Lw' ltac:(lia)) in S.
+  rewrite (objective_intercept (RQ2 cols) (RQ y) (Q2R l1) (Q2R l2) (RQ w) (Q2R b) (length cols) LwR
+             ltac:(rewrite RQ_length; lia)) in S.
+  rewrite absdiff_app in S; [| rewrite RQ_length; lia | unfold EPS; rewrite map_length, RQ_length; lia].
+  assert (Hn' : (0 < length (RQ y))%nat) by (rewrite RQ_length; lia).
+  pose proof (scaled_objective (RQ2 cols) (RQ y) penalty l1_ratio w' b' Hn') as A.
+  pose proof (scaled_objective (RQ2 cols) (RQ y) penalty l1_ratio (RQ w) (Q2R b) Hn') as B.
+  rewrite RQ_length in A, B. rewrite <- E1, <- E2 in A, B.
+  assert (P : 0 < INR (length y)) by (apply lt_0_INR; lia).
+  set (n := INR (length y)) in *.
+  set (F' := enet_objective (RQ2 cols) (RQ y) penalty l1_ratio w' b') in *.
+  set (F0 := enet_objective (RQ2 cols) (RQ y) penalty l1_ratio (RQ w) (Q2R b)) in *.
+  set (D := Rdot (EPS e2s) (absdiff w' (RQ w)) + eps_of e2b * Rabs (b' - Q2R b)) in *.
+  assert (G : n * F' >= n * F0 - D) by lra.
+  unfold Rdiv. apply Rle_ge. apply Rmult_le_reg_l with n; auto.
+  rewrite Rmult_minus_distr_l. replace (n * (D * / n)) with D by (field; lra). lra.
+Qed.
+
+(** the same for a fixed intercept (fits without intercept: b = 0; known class of F7: b = mean y) *)
+Lemma vadd_repeat_shift b : forall (y l : list R), length l = length y ->
+  vsub (map (fun v => v - b) y) l = vsub y (vadd l (repeat b (length y))).
+Proof.
+  unfold vsub, vadd, vscale. induction y as [|y0 y IH]; intros [|l0 l] L; simpl in *; try discriminate; auto.
+  f_equal; [lra|]. apply IH. lia.
+Qed.
+
+Lemma objective_fixed cols y l1 l2 w b p : Forall (fun c => length c = length y) cols ->
+  length w = length cols -> p = length w ->
+  objective cols (map (fun v => v - b) y) (repeat l1 p) (repeat l2 p) w
+  = / 2 * sse cols y w b + l1 * l1norm w + l2 / 2 * sq w.
+Proof.
+  intros H L ->. unfold objective, residual, sse, predictions. rewrite map_length.
+  rewrite vadd_repeat_shift by (apply lin_length; auto). rewrite pen_plain. lra.
+Qed.
+
+Lemma RQ_shift y b : RQ (map (fun v => qsub v b) y) = map (fun v => v - Q2R b) (RQ y).
+Proof. unfold RQ. rewrite !map_map. apply map_ext. intros v. apply R_qsub. Qed.
+
+Lemma enet_ok_fixed_sound cols y w b l1 l2 e2s penalty l1_ratio :
+  enet_ok_fixed cols y w b l1 l2 e2s = true ->
+  Q2R l1 = INR (length y) * penalty * l1_ratio ->
+  Q2R l2 = INR (length y) * penalty * (1 - l1_ratio) ->
+  (0 < length y)%nat ->
+  forall w' : list R, length w' = length w ->
+  enet_objective (RQ2 cols) (RQ y) penalty l1_ratio w' (Q2R b)
+  >= enet_objective (RQ2 cols) (RQ y) penalty l1_ratio (RQ w) (Q2R b)
+     - Rdot (EPS e2s) (absdiff w' (RQ w)) / INR (length y).
+Proof.
+  unfold enet_ok_fixed. intros H E1 E2 Hn w' L.
+  assert (Lens : length w = length cols /\ all_len (length y) cols = true).
+  { unfold kkt_ok in H. repeat (apply andb_true_iff in H as [H ?]).
+    repeat match goal with E : Nat.eqb _ _ = true |- _ => apply Nat.eqb_eq in E end.
+    rewrite map_length in *. split; [lia|assumption]. }
+  destruct Lens as [Lw Wf]. apply all_len_R in Wf. rewrite <- (RQ_length y) in Wf.
+  pose proof (kkt_ok_sound _ _ _ _ _ _ H w' L) as S.
+  rewrite RQ_shift, !RQ_repeat in S.
+  assert (Lw' : length w' = length (RQ2 cols)) by (unfold RQ2; rewrite map_length; lia).
+  assert (LwR : length (RQ w) = length (RQ2 cols)) by (unfold RQ2; rewrite RQ_length, map_length; lia).
+  rewrite (objective_fixed (RQ2 cols) (RQ y) (Q2R l1) (Q2R l2) w' (Q2R b) (length cols) Wf Lw' ltac:(lia)) in S.
+  rewrite (objective_fixed (RQ2 cols) (RQ y) (Q2R l1) (Q2R l2) (RQ w) (Q2R b) (length cols) Wf LwR
+             ltac:(rewrite RQ_length; lia)) in S.
+  assert (Hn' : (0 < length (RQ y))%nat) by (rewrite RQ_length; lia).
+  pose proof (scaled_objective (RQ2 cols) (RQ y) penalty l1_ratio w' (Q2R b) Hn') as A.
+  pose proof (scaled_objective (RQ2 cols) (RQ y) penalty l1_ratio (RQ w) (Q2R b) Hn') as B.
+  rewrite RQ_length in A, B. rewrite <- E1, <- E2 in A, B.
+  assert (P : 0 < INR (length y)) by (apply lt_0_INR; lia).
+  set (n := INR (length y)) in *.
+  set (F' := enet_objective (RQ2 cols) (RQ y) penalty l1_ratio w' (Q2R b)) in *.
+  set (F0 := enet_objective (RQ2 cols) (RQ y) penalty l1_ratio (RQ w) (Q2R b)) in *.
+  set (D := Rdot (EPS e2s) (absdiff w' (RQ w))) in *.
+  assert (G : n * F' >= n * F0 - D) by lra.
+  unfold Rdiv. apply Rle_ge. apply Rmult_le_reg_l with n; auto.
+  rewrite Rmult_minus_distr_l. replace (n * (D * / n)) with D by (field; lra). lra.
+Qed.
+
+(** ordinary least squares: sum of squared errors *)
+Lemma ols_ok_sound cols y w b e2s e2b : ols_ok cols y w b e2s e2b = true -> (0 < length y)%nat ->
+  forall (w' : list R) (b' : R), length w' = length w ->
+  sse (RQ2 cols) (RQ y) w' b'
+  >= sse (RQ2 cols) (RQ y) (RQ w) (Q2R b)
+     - 2 * (Rdot (EPS e2s) (absdiff w' (RQ w)) + eps_of e2b * Rabs (b' - Q2R b)).
+Proof.
+  unfold ols_ok. intros H Hn w' b' L.
+  pose proof (enet_ok_sound cols y w b 0 0 e2s e2b 0 0 H) as S.
+  rewrite R_0 in S. specialize (S ltac:(ring) ltac:(ring) Hn w' b' L).
+  unfold enet_objective in S. rewrite RQ_length in S.
+  assert (P : 0 < INR (length y)) by (apply lt_0_INR; lia).
+  set (n := INR (length y)) in *.
+  set (D := Rdot (EPS e2s) (absdiff w' (RQ w)) + eps_of e2b * Rabs (b' - Q2R b)) in *.
+  set (A := sse (RQ2 cols) (RQ y) w' b') in *. set (B := sse (RQ2 cols) (RQ y) (RQ w) (Q2R b)) in *.
+  assert (E : / (2 * n) * A - (/ (2 * n) * B - D / n) = / (2 * n) * (A - (B - 2 * D))) by (field; lra).
+  assert (Q : 0 <= / (2 * n) * (A - (B - 2 * D))) by lra.
+  assert (0 < / (2 * n)) by (apply Rinv_0_lt_compat; lra).
+  assert (0 <= A - (B - 2 * D)) by nra. lra.
+Qed.
+
+Lemma ols_ok_noint_sound cols y w e2s : ols_ok_noint cols y w e2s = true -> (0 < length y)%nat ->
+  forall w' : list R, length w' = length w ->
+  sse (RQ2 cols) (RQ y) w' 0 >= sse (RQ2 cols) (RQ y) (RQ w) 0 - 2 * Rdot (EPS e2s) (absdiff w' (RQ w)).
+Proof.
+  unfold ols_ok_noint. intros H Hn w' L.
+  pose proof (enet_ok_fixed_sound cols y w 0 0 0 e2s 0 0 H) as S.
+  rewrite R_0 in S. specialize (S ltac:(ring) ltac:(ring) Hn w' L).
+  unfold enet_objective in S. rewrite RQ_length in S.
+  assert (P : 0 < INR (length y)) by (apply lt_0_INR; lia).
+  set (n := INR (length y)) in *.
+  set (D := Rdot (EPS e2s) (absdiff w' (RQ w))) in *.
+  set (A := sse (RQ2 cols) (RQ y) w' 0) in *. set (B := sse (RQ2 cols) (RQ y) (RQ w) 0) in *.
+  assert (E : / (2 * n) * A - (/ (2 * n) * B - D / n) = / (2 * n) * (A - (B - 2 * D))) by (field; lra).
+  assert (Q : 0 <= / (2 * n) * (A - (B - 2 * D))) by lra.
+  assert (0 < / (2 * n)) by (apply Rinv_0_lt_compat; lra).
+  assert (0 <= A - (B - 2 * D)) by nra. lra.
+Qed.
+
+(* ------------------------------------------------------------------------------------------- *)
+(** * Part 4: exact statements over the reals *)
+
+(** ** ordinary least squares: a residual orthogonal to every feature column and to the constant
+       column minimises the sum of squared errors (Pythagoras) *)
+Lemma kkt_all_zero cs : forall th, length th = length cs -> Forall (fun c => c = 0) cs ->
+  kkt_all cs (repeat 0 (length cs)) (repeat 0 (length cs)) th (repeat 0 (length cs)).
+Proof.
+  induction cs as [|c cs IH]; intros [|t th] L H; simpl in *; try discriminate; auto.
+  inversion H as [|? ? Hc Hr]; subst.
+  repeat (split; [lra|]). split.
+  - unfold coord_cond. replace (0 - 0 * t) with 0 by ring.
+    repeat split; intros _; rewrite ?Rplus_0_r, ?Rminus_0_r, Rabs_R0; lra.
+  - apply IH; auto.
+Qed.
+
+Lemma Rdot_ones r : Rdot (repeat 1 (length r)) r = Rsum r.
+Proof. induction r as [|x r IH]; simpl; auto. rewrite IH. ring. Qed.
+
+Lemma Rdot_repeat0_any n v : Rdot (repeat 0 n) v = 0.
+Proof. apply Rdot_repeat0_l. Qed.
+
+Lemma residual_intercept cols y w b : length w = length cols -> Forall (fun c => length c = length y) cols ->
+  residual (cols ++ [repeat 1 (length y)]) y (w ++ [b]) = vsub y (predictions cols (length y) w b).
+Proof. intros L H. unfold residual, predictions. now rewrite lin_intercept. Qed.
+
+Lemma ols_optimal cols y w b :
+  Forall (fun c => length c = length y) cols -> length w = length cols ->
+  let r := vsub y (predictions cols (length y) w b) in
+  Forall (fun c => Rdot c r = 0) cols -> Rsum r = 0 ->
+  forall (w' : list R) (b' : R), length w' = length w -> sse cols y w' b' >= sse cols y w b.
+Proof.
+  intros H L r Ho Hs w' b' L'.
+  set (cols1 := cols ++ [repeat 1 (length y)]).
+  assert (H1 : Forall (fun c => length c = length y) cols1).
+  { unfold cols1. apply Forall_app. split; auto. constructor; auto. apply repeat_length. }
+  assert (Lr : length r = length y).
+  { unfold r, predictions. rewrite vsub_length; auto.
+    rewrite vadd_length; rewrite lin_length; auto. now rewrite repeat_length. }
+  assert (K : kkt_all (map (fun c => Rdot c (residual cols1 y (w ++ [b]))) cols1)
+                      (repeat 0 (length cols1)) (repeat 0 (length cols1)) (w ++ [b])
+                      (repeat 0 (length (w ++ [b])))).
+  { unfold cols1 at 1. rewrite residual_intercept by auto. fold r.
+    replace (length (w ++ [b])) with (length cols1) by (unfold cols1; rewrite !app_length; simpl; lia).
+    rewrite <- (map_length (fun c => Rdot c r) cols1) at 1 2 3.
+    apply kkt_all_zero.
+    - unfold cols1. rewrite map_length, !app_length. simpl. lia.
+    - unfold cols1. rewrite map_app. apply Forall_app. split.
+      + apply Forall_map. exact Ho.
+      + simpl. constructor; auto. rewrite <- Lr, Rdot_ones. exact Hs. }
+  pose proof (kkt_optimal cols1 y _ _ (w ++ [b]) (w' ++ [b']) H1 K
+                ltac:(rewrite !app_length; simpl; lia)) as O.
+  unfold cols1 in O. rewrite app_length in O. simpl in O.
+  replace (length cols + 1)%nat with (S (length cols)) in O by lia.
+  assert (E : forall n, repeat 0 (S n) = repeat 0 n ++ [0]).
+  { induction n; simpl; auto. now rewrite <- IHn. }
+  rewrite E in O.
+  rewrite (objective_intercept cols y 0 0 w' b' (length cols) ltac:(lia) ltac:(lia)) in O.
+  rewrite (objective_intercept cols y 0 0 w b (length cols) L ltac:(lia)) in O. lra.
+Qed.
+
+(** ** the l1 threshold *)
+(** a point that passes the coordinate condition up to eps has a zero coefficient wherever the
+    soft-threshold input x_j . (r + theta_j x_j) lies under l1 by more than eps *)
+Lemma threshold_zero c l1 l2 q th eps : 0 <= q -> 0 <= l2 -> coord_cond c l1 l2 th eps ->
+  Rabs (c + th * q) < l1 - eps -> th = 0.
+Proof.
+  intros Hq H2 (Hp & Hn & _) Hlt.
+  destruct (Rtotal_order th 0) as [Hneg | [Hz | Hpos]]; auto; exfalso.
+  - specialize (Hn Hneg). unfold Rabs in *.
+    destruct (Rcase_abs (c - l2 * th + l1)), (Rcase_abs (c + th * q)); nra.
+  - specialize (Hp Hpos). unfold Rabs in *.
+    destruct (Rcase_abs (c - l2 * th - l1)), (Rcase_abs (c + th * q)); nra.
+Qed.
+
+(** the coordinate update of the model returns exactly zero when |x_j . r| <= n*l1_ratio*penalty *)
+Lemma cd_update_threshold (l1r pen nF tmp nj : R) :
+  Rabs tmp <= nF * l1r * pen -> cd_new_w R_ops RX l1r pen nF tmp nj = 0.
+Proof.
+  intros H. unfold cd_new_w; simpl. rewrite Rmax_right by lra. unfold Rdiv. ring.
+Qed.
+
+(** ** the intercept glue (finding F7) *)
+(** What the implementation returns on exact arithmetic is: intercept = mean y, coefficients = a
+    minimiser for that fixed intercept.  On un-centred features this is not a joint minimiser.
+    Witness: one feature x = 10..13, y = 1..4, penalty 0.1, l1_ratio 0.5: w = 24/2671 is optimal
+    for the intercept 5/2 (first-order condition holds exactly), the residuals sum to -1104/2671,
+    and moving the intercept alone lowers the objective. *)
+Lemma enet_intercept_refuted :
+  exists (cols : list (list R)) (y : list R) (penalty l1_ratio : R) (w : list R),
+    let ybar := Rsum y / INR (length y) in
+    (forall w' : list R, length w' = length w ->
+       enet_objective cols y penalty l1_ratio w' ybar >= enet_objective cols y penalty l1_ratio w ybar)
+    /\ exists (w' : list R) (b' : R),
+       enet_objective cols y penalty l1_ratio w' b' < enet_objective cols y penalty l1_ratio w ybar.
+Proof.
+  exists [[10; 11; 12; 13]], [1; 2; 3; 4], (1 / 10), (1 / 2), [24 / 2671].
+  cbv zeta. split.
+  - intros w' L.
+    set (cols := [[10; 11; 12; 13]]). set (y := [1; 2; 3; 4]).
+    assert (Eb : Rsum y / INR (length y) = 5 / 2) by (unfold y; simpl; lra).
+    rewrite Eb.
+    assert (Wf : Forall (fun c => length c = length y) cols) by (repeat constructor).
+    assert (K : kkt_all (map (fun c => Rdot c (residual cols (map (fun v => v - 5 / 2) y) [24 / 2671])) cols)
+                        [1 / 5] [1 / 5] [24 / 2671] (repeat 0 (length [24 / 2671]))).
+    { simpl. repeat (split; [lra|]). split; [|exact I].
+      unfold coord_cond, residual, vsub, vadd, vscale; simpl.
+      repeat split; intros Hs; try lra.
+      match goal with |- Rabs ?e <= _ => replace e with 0 by field end. rewrite Rabs_R0. lra. }
+    assert (Wf' : Forall (fun c => length c = length (map (fun v => v - 5 / 2) y)) cols) by (repeat constructor).
+    pose proof (kkt_optimal cols _ _ _ _ w' Wf' K L) as O.
+    change [1 / 5] with (repeat (1 / 5) 1) in O.
+    rewrite (objective_fixed cols y (1 / 5) (1 / 5) w' (5 / 2) 1 Wf L ltac:(simpl in L; lia)) in O.
+    rewrite (objective_fixed cols y (1 / 5) (1 / 5) [24 / 2671] (5 / 2) 1 Wf eq_refl eq_refl) in O.
+    unfold enet_objective. replace (INR (length y)) with 4 by (unfold y; simpl; lra). lra.
+  - exists [24 / 2671], (5 / 2 - 276 / 2671).
+    unfold enet_objective, sse, predictions, sq, l1norm, vsub, vadd, vscale; simpl.
+    rewrite (Rabs_right (24 / 2671)) by lra. lra.
+Qed.
+
+(** outside the known class (every feature column sums to zero) the same glue IS jointly optimal *)
+Lemma Rsum_vadd a : forall b, length a = length b -> Rsum (vadd a b) = Rsum a + Rsum b.
+Proof.
+  unfold vadd. induction a as [|x a IH]; intros [|y b] L; simpl in *; try discriminate; try lra.
+  rewrite IH by lia. lra.
+Qed.
+Lemma Rsum_vscale c a : Rsum (vscale c a) = c * Rsum a.
+Proof. unfold vscale. induction a as [|x a IH]; simpl; [lra|]. rewrite IH. lra. Qed.
+Lemma Rsum_repeat b n : Rsum (repeat b n) = INR n * b.
+Proof.
+  induction n as [|n IH]; [simpl; lra|]. rewrite S_INR. simpl. rewrite IH. lra.
+Qed.
+Lemma Rsum_lin_centred n cols : forall w, Forall (fun c => length c = n) cols ->
+  Forall (fun c => Rsum c = 0) cols -> Rsum (lin n cols w) = 0.
+Proof.
+  induction cols as [|c cols IH]; intros w H Z; simpl.
+  - rewrite Rsum_repeat. lra.
+  - destruct w as [|t w]; [rewrite Rsum_repeat; lra|].
+    inversion H as [|? ? Hc Hr]; subst. inversion Z as [|? ? Zc Zr]; subst.
+    rewrite Rsum_vadd by (rewrite vscale_length, lin_length; auto).
+    rewrite Rsum_vscale, Zc, IH by auto. lra.
+Qed.
+
+Lemma kkt_all_app cs : forall l1s l2s th eps c a b t e,
+  kkt_all cs l1s l2s th eps -> 0 <= a -> 0 <= b -> 0 <= e -> coord_cond c a b t e ->
+  kkt_all (cs ++ [c]) (l1s ++ [a]) (l2s ++ [b]) (th ++ [t]) (eps ++ [e]).
+Proof.
+  induction cs as [|c0 cs IH]; intros [|a0 l1s] [|b0 l2s] [|t0 th] [|e0 eps] c a b t e K Ha Hb He Hc;
+    simpl in K; try contradiction; simpl.
+  - repeat (split; auto).
+  - destruct K as (A & B & C & D & K). repeat (split; auto).
+Qed.
+
+Lemma enet_joint_centred cols y penalty l1_ratio w :
+  Forall (fun c => length c = length y) cols -> length w = length cols -> (0 < length y)%nat ->
+  Forall (fun c => Rsum c = 0) cols ->
+  let n := INR (length y) in
+  let ybar := Rsum y / n in
+  kkt_all (map (fun c => Rdot c (vsub y (predictions cols (length y) w ybar))) cols)
+          (repeat (n * penalty * l1_ratio) (length cols)) (repeat (n * penalty * (1 - l1_ratio)) (length cols))
+          w (repeat 0 (length cols)) ->
+  forall (w' : list R) (b' : R), length w' = length w ->
+  enet_objective cols y penalty l1_ratio w' b' >= enet_objective cols y penalty l1_ratio w ybar.
+Proof.
+  intros H L Hn Z n ybar K w' b' L'.
+  assert (P : 0 < n) by (apply lt_0_INR; lia).
+  set (r := vsub y (predictions cols (length y) w ybar)) in *.
+  assert (Sr : Rsum r = 0).
+  { unfold r, predictions, vsub.
+    assert (Ll : length (lin (length y) cols w) = length y) by (apply lin_length; auto).
+    rewrite Rsum_vadd by (rewrite vscale_length, vadd_length; rewrite ?repeat_length; lia).
+    rewrite Rsum_vscale, Rsum_vadd by (rewrite repeat_length; lia).
+    rewrite Rsum_lin_centred, Rsum_repeat by auto. unfold ybar. fold n. field. lra. }
+  set (cols1 := cols ++ [repeat 1 (length y)]).
+  assert (H1 : Forall (fun c => length c = length y) cols1).
+  { unfold cols1. apply Forall_app. split; auto. constructor; auto. apply repeat_length. }
+  assert (Lr : length r = length y).
+  { unfold r, predictions. rewrite vsub_length; auto.
+    rewrite vadd_length; rewrite lin_length; auto. now rewrite repeat_length. }
+  assert (K1 : kkt_all (map (fun c => Rdot c (residual cols1 y (w ++ [ybar]))) cols1)
+                       (repeat (n * penalty * l1_ratio) (length cols) ++ [0])
+                       (repeat (n * penalty * (1 - l1_ratio)) (length cols) ++ [0])
+                       (w ++ [ybar]) (repeat 0 (length cols) ++ [0])).
+  { unfold cols1 at 1. rewrite residual_intercept by auto. fold r. unfold cols1. rewrite map_app. simpl.
+    apply kkt_all_app; auto; try lra.
+    rewrite <- Lr, Rdot_ones, Sr. unfold coord_cond. replace (0 - 0 * ybar) with 0 by ring.
+    repeat split; intros _; rewrite ?Rplus_0_r, ?Rminus_0_r, Rabs_R0; lra. }
+  assert (E : forall k, repeat 0 k ++ [0] = repeat 0 (length (w ++ [ybar])) -> True) by auto.
+  assert (E0 : repeat 0 (length cols) ++ [0] = repeat 0 (length (w ++ [ybar]))).
+  { rewrite app_length. simpl. rewrite L. clear. induction (length cols); simpl; auto. now rewrite IHn. }
+  rewrite E0 in K1.
+  pose proof (kkt_optimal cols1 y _ _ (w ++ [ybar]) (w' ++ [b']) H1 K1
+                ltac:(rewrite !app_length; simpl; lia)) as O.
+  unfold cols1 in O.
+  rewrite (objective_intercept cols y _ _ w' b' (length cols) ltac:(lia) ltac:(lia)) in O.
+  rewrite (objective_intercept cols y _ _ w ybar (length cols) L ltac:(lia)) in O.
+  pose proof (scaled_objective cols y penalty l1_ratio w' b' Hn) as A.
+  pose proof (scaled_objective cols y penalty l1_ratio w ybar Hn) as B.
+  fold n in A, B. nra.
+Qed.
+
+(* ------------------------------------------------------------------------------------------- *)
+(** * Non-vacuity: the checkers accept genuine optima, the hypotheses of the theorems are satisfiable *)
+
+Local Open Scope Q_scope.
+(** OLS through (0,0), (1,0), (2,2): slope 1, intercept -1/3 (unit test `fits_least_squares_line_through_three_dots`) *)
+Example ex_ols_ok : ols_ok [[0; 1; 2]] [0; 0; 2] [1] (-1 # 3) [0] 0 = true.
+Proof. vm_compute. reflexivity. Qed.
+Example ex_ols_rejects : ols_ok [[0; 1; 2]] [0; 0; 2] [1] (-1 # 2) [0] 0 = false.
+Proof. vm_compute. reflexivity. Qed.
+(** lasso toy problem of the unit tests: x = y = (-1,0,1), penalty 0.1: w = 0.85, intercept 0 *)
+Example ex_enet_ok : enet_ok [[-1; 0; 1]] [-1; 0; 1] [17 # 20] 0 (3 # 10) 0 [0] 0 = true.
+Proof. vm_compute. reflexivity. Qed.
+Example ex_enet_rejects : enet_ok [[-1; 0; 1]] [-1; 0; 1] [16 # 20] 0 (3 # 10) 0 [0] 0 = false.
+Proof. vm_compute. reflexivity. Qed.
+Example ex_enet_penalties : (Q2R (3 # 10) = INR 3 * (1 / 10) * 1 /\ Q2R 0 = INR 3 * (1 / 10) * (1 - 1))%R.
+Proof. unfold Q2R; simpl. split; lra. Qed.
+(** a zero coefficient under the threshold: penalty 1 gives w = 0 *)
+Example ex_enet_zero : enet_ok [[-1; 0; 1]] [-1; 0; 1] [0] 0 3 0 [0] 0 = true.
+Proof. vm_compute. reflexivity. Qed.
+(** the un-centred witness of F7 is accepted for the fixed intercept, rejected jointly *)
+Example ex_f7_fixed : enet_ok_fixed [[10; 11; 12; 13]] [1; 2; 3; 4] [24 # 2671] (5 # 2) (1 # 5) (1 # 5) [0] = true.
+Proof. vm_compute. reflexivity. Qed.
+Example ex_f7_joint : enet_ok [[10; 11; 12; 13]] [1; 2; 3; 4] [24 # 2671] (5 # 2) (1 # 5) (1 # 5) [0] 0 = false.
+Proof. vm_compute. reflexivity. Qed.
+Local Close Scope Q_scope.
+(** the hypotheses of [enet_joint_centred] hold for the centred toy problem *)
+Example ex_centred_hyp :
+  let cols := [[-1; 0; 1]] in let y := [-1; 0; 1] in
+  Forall (fun c => Rsum c = 0) cols /\
+  kkt_all (map (fun c => Rdot c (vsub y (predictions cols 3 [17 / 20] (Rsum y / INR 3)))) cols)
+          (repeat (INR 3 * (1 / 10) * 1) 1) (repeat (INR 3 * (1 / 10) * (1 - 1)) 1) [17 / 20] (repeat 0 1).
+Proof.
+  cbv zeta. split; [repeat constructor; simpl; lra|].
+  simpl. repeat (split; [lra|]). split; [|exact I].
+  unfold coord_cond, predictions, vsub, vadd, vscale; simpl.
+  repeat split; intros Hs; try lra.
+  match goal with |- Rabs ?e <= _ => replace e with 0 by field end. rewrite Rabs_R0. lra.
+Qed.
+
+(* ------------------------------------------------------------------------------------------- *)
+(** * Part 5: the reported duality gap (model of `duality_gap` over the reals) is a bound on the
+      remaining suboptimality - weak duality with the scaled residual as dual point *)
+
+(** ndarray's summation orders coincide with the plain sum over the reals *)
+Lemma fold_add_R l : forall a, fold_left Rplus l a = a + Rsum l.
+Proof. induction l as [|x l IH]; intros a; simpl; [lra|]. rewrite IH. lra. Qed.
+Lemma seq_sum_R l : seq_sum R_ops l = Rsum l.
+Proof. unfold seq_sum; simpl. rewrite fold_add_R. lra. Qed.
+
+Lemma chunks8_R fuel : forall xs p, (length xs <= fuel)%nat -> length p = 8%nat ->
+  length (fst (chunks8 R_ops xs p)) = 8%nat /\
+  Rsum (fst (chunks8 R_ops xs p)) + Rsum (snd (chunks8 R_ops xs p)) = Rsum p + Rsum xs.
+Proof.
+  induction fuel as [|fuel IH]; intros xs p L Hp.
+  - destruct xs; simpl in L; [|lia]. simpl. split; auto.
+  - do 8 (destruct xs as [|? xs]; [simpl; split; auto|]).
+    destruct p as [|p0 [|p1 [|p2 [|p3 [|p4 [|p5 [|p6 [|p7 [|]]]]]]]]]; simpl in Hp; try discriminate.
+    cbn [chunks8]. simpl in L.
+    specialize (IH xs (map (fun q => add R_ops (fst q) (snd q)) (combine [p0; p1; p2; p3; p4; p5; p6; p7] [r; r0; r1; r2; r3; r4; r5; r6]))
+                  ltac:(lia) eq_refl).
+    destruct IH as [A B]. split; [exact A|]. rewrite B. simpl. lra.
+Qed.
+
+Lemma usum_R l : usum R_ops l = Rsum l.
+Proof.
+  unfold usum.
+  pose proof (chunks8_R (length l) l [0;0;0;0;0;0;0;0] (le_n _) eq_refl) as [A B].
+  simpl zero. destruct (chunks8 R_ops l [0;0;0;0;0;0;0;0]) as [p rest]. simpl in A, B.
+  destruct p as [|p0 [|p1 [|p2 [|p3 [|p4 [|p5 [|p6 [|p7 [|]]]]]]]]]; simpl in A; try discriminate.
+  simpl. rewrite fold_add_R. simpl in B. lra.
+Qed.
+
+
+Lemma map2_mul_R a : forall b, Rsum (map2 Rmult a b) = Rdot a b.
+Proof. induction a as [|x a IH]; intros [|y b]; simpl; auto. now rewrite IH. Qed.
+Lemma dot_R cc a b : dot R_ops cc a b = Rdot a b.
+Proof. unfold dot. destruct cc; [rewrite usum_R | rewrite seq_sum_R]; apply map2_mul_R. Qed.
+
+Definition maxabs (l : list R) : R := fold_left (fun f v => Rmax (Rabs v) f) l 0.
+Lemma fold_max_ge l : forall a, a <= fold_left (fun f v => Rmax (Rabs v) f) l a /\
+  forall v, In v l -> Rabs v <= fold_left (fun f v => Rmax (Rabs v) f) l a.
+Proof.
+  induction l as [|x l IH]; intros a; simpl; [split; [lra|tauto]|].
+  destruct (IH (Rmax (Rabs x) a)) as [A B]. split.
+  - pose proof (Rmax_r (Rabs x) a). lra.
+  - intros v [E | Hv]; [subst x; pose proof (Rmax_l (Rabs v) a); lra | auto].
+Qed.
+
+Lemma Rdot_bound dn : 0 <= dn -> forall (w' xta : list R), length w' = length xta ->
+  (forall v, In v xta -> Rabs v <= dn) -> Rdot w' xta <= dn * Rsum (map Rabs w').
+Proof.
+  intros Hd. induction w' as [|t w' IH]; intros [|x xta] L H; simpl in *; try discriminate; try lra.
+  specialize (IH xta ltac:(lia) (fun v Hv => H v (or_intror Hv))).
+  pose proof (H x (or_introl eq_refl)) as Hx.
+  assert (t * x <= dn * Rabs t).
+  { unfold Rabs in *. destruct (Rcase_abs x), (Rcase_abs t); nra. }
+  lra.
+Qed.
+
+Lemma Rdot_map2_sub l2 : forall (w' cs w : list R), length cs = length w' -> length w = length w' ->
+  Rdot w' (map2 (fun d wj => d - wj * l2) cs w) = Rdot w' cs - l2 * Rdot w' w.
+Proof.
+  induction w' as [|t w' IH]; intros [|c cs] [|x w] L1 L2; simpl in *; try discriminate; try lra.
+  rewrite IH by lia. lra.
+Qed.
+Lemma map2_length (f : R -> R -> R) : forall a b, length a = length b -> length (map2 f a b) = length a.
+Proof. induction a as [|x a IH]; intros [|y b] L; simpl in *; try discriminate; auto. Qed.
+
+Lemma young : forall (a th : list R), length a = length th -> / 2 * sq a >= Rdot th a - / 2 * sq th.
+Proof.
+  unfold sq. induction a as [|x a IH]; intros [|t th] L; simpl in *; try discriminate; try lra.
+  specialize (IH th ltac:(lia)). assert (0 <= (x - t) * (x - t)) by apply Rle_0_sqr. nra.
+Qed.
+Lemma young_ridge l2 c : 0 <= l2 -> forall (w w' : list R), length w = length w' ->
+  l2 / 2 * sq w' >= c * l2 * Rdot w w' - / 2 * (c * c) * l2 * sq w.
+Proof.
+  intros H. unfold sq. induction w as [|x w IH]; intros [|x' w'] L; simpl in *; try discriminate; try lra.
+  specialize (IH w' ltac:(lia)).
+  assert (0 <= l2 * ((x' - c * x) * (x' - c * x))) by (apply Rmult_le_pos; [lra|apply Rle_0_sqr]). nra.
+Qed.
+Lemma l1norm_nonneg w : 0 <= l1norm w.
+Proof. unfold l1norm. induction w; simpl; [lra|]. pose proof (Rabs_pos a). lra. Qed.
+Lemma sq_vscale c a : sq (vscale c a) = c * c * sq a.
+Proof. unfold sq. rewrite Rdot_vscale_l, Rdot_comm, Rdot_vscale_l. ring. Qed.
+
+(** weak duality: the duality gap reported by the solver (evaluated in exact arithmetic at the point
+    w with its residual) bounds the suboptimality of w against every other coefficient vector *)
+Lemma gap_upper_bound cc l1r pen nF cols y w w' :
+  Forall (fun c => length c = length y) cols -> length w = length cols -> length w' = length cols ->
+  0 <= l1r * pen * nF -> 0 <= (1 - l1r) * pen * nF ->
+  let p := length cols in
+  let P v := objective cols y (repeat (l1r * pen * nF) p) (repeat ((1 - l1r) * pen * nF) p) v in
+  P w - P w' <= duality_gap R_ops RX cc l1r pen nF cols y w (residual cols y w).
+Proof.
+  intros H L L' H1 H2 p P.
+  set (l1 := l1r * pen * nF) in *. set (l2 := (1 - l1r) * pen * nF) in *.
+  set (r := residual cols y w).
+  assert (Lr : length r = length y).
+  { unfold r, residual. rewrite vsub_length; auto. now rewrite lin_length. }
+  unfold duality_gap. rewrite !dot_R, seq_sum_R. simpl.
+  rewrite (map_ext (fun xj => dot R_ops cc xj r) (fun xj => Rdot xj r)) by (intros; apply dot_R).
+  cbv delta [vec] in *. fold l1 l2.
+  set (cs := map (fun xj => Rdot xj r) cols).
+  set (xta := map2 (fun d wj => d - wj * l2) cs w).
+  set (dn := fold_left (fun f v => Rmax (Rabs v) f) xta 0).
+  destruct (fold_max_ge xta 0) as [Dn0 DnB]. fold dn in Dn0, DnB.
+  fold (l1norm w).
+  (* the two objectives *)
+  assert (EP : forall v, length v = length cols -> P v = / 2 * sq (residual cols y v) + l1 * l1norm v + l2 / 2 * sq v).
+  { intros v Lv. unfold P, objective, p. rewrite <- Lv, pen_plain. lra. }
+  rewrite (EP w L), (EP w' L'). fold r.
+  (* the dual lower bound for an arbitrary scaling 0 <= c with c * dn <= l1 *)
+  assert (D : forall c, 0 <= c -> c * dn <= l1 ->
+     / 2 * sq (residual cols y w') + l1 * l1norm w' + l2 / 2 * sq w'
+     >= c * Rdot r y - / 2 * (c * c) * sq r - / 2 * (c * c) * l2 * sq w).
+  { intros c C0 C1.
+    set (a := residual cols y w').
+    assert (La : length a = length y).
+    { unfold a, residual. rewrite vsub_length; auto. now rewrite lin_length. }
+    pose proof (young a (vscale c r) ltac:(rewrite vscale_length; lia)) as Y1.
+    rewrite sq_vscale, Rdot_vscale_l in Y1.
+    assert (Era : Rdot r a = Rdot r y - Rdot w' cs).
+    { unfold a, residual, vsub.
+      rewrite Rdot_vadd_r by (rewrite vscale_length, lin_length; auto).
+      rewrite (Rdot_comm r (vscale _ _)), Rdot_vscale_l, (Rdot_lin (length y) cols w' r H). unfold cs. lra. }
+    pose proof (young_ridge l2 c H2 w w' ltac:(lia)) as Y2.
+    assert (Ex : Rdot w' xta = Rdot w' cs - l2 * Rdot w' w).
+    { unfold xta. apply Rdot_map2_sub; [unfold cs; rewrite map_length|]; lia. }
+    assert (Bx : Rdot w' xta <= dn * Rsum (map Rabs w')).
+    { apply Rdot_bound; auto. unfold xta. rewrite map2_length; unfold cs; rewrite ?map_length; lia. }
+    fold (l1norm w') in Bx. pose proof (l1norm_nonneg w') as N.
+    rewrite (Rdot_comm w w') in Y2.
+    assert (c * Rdot w' xta <= l1 * l1norm w').
+    { apply Rle_trans with (c * (dn * l1norm w')); [apply Rmult_le_compat_l; auto|]. nra. }
+    rewrite Era in Y1. nra. }
+  unfold Rltb. destruct (Rlt_dec l1 dn) as [Hlt | Hge].
+  - assert (Dp : 0 < dn) by lra.
+    specialize (D (l1 / dn) ltac:(apply Rmult_le_pos; [lra | left; now apply Rinv_0_lt_compat])
+                  ltac:(right; field; lra)).
+    unfold half; simpl. set (c := l1 / dn) in *.
+    replace (1 / (1 + 1)) with (/ 2) by field. unfold sq, l1norm in *. nra.
+  - specialize (D 1 ltac:(lra) ltac:(lra)).
+    unfold half; simpl. replace (1 / (1 + 1)) with (/ 2) by field. unfold sq, l1norm in *. nra.
+Qed.
+
+(** in particular the reported gap is non-negative (take w' = w) *)
+Lemma gap_nonneg cc l1r pen nF cols y w :
+  Forall (fun c => length c = length y) cols -> length w = length cols ->
+  0 <= l1r * pen * nF -> 0 <= (1 - l1r) * pen * nF ->
+  0 <= duality_gap R_ops RX cc l1r pen nF cols y w (residual cols y w).
+Proof.
+  intros H L H1 H2. pose proof (gap_upper_bound cc l1r pen nF cols y w w H L L H1 H2) as G.
+  cbv zeta in G. lra.
+Qed.
+
+(* ------------------------------------------------------------------------------------------- *)
+(** * Part 6: the coordinate update of the model *)
+
+(** the coordinate update solves the first-order condition of its coordinate exactly: with
+    tmp = x_j.(r + w_j x_j) and nj = |x_j|^2, the correlation after the update is tmp - nj*w_new *)
+Lemma cd_update_kkt (l1r pen nF tmp nj : R) :
+  0 <= nF * l1r * pen -> 0 <= nF * (1 - l1r) * pen -> 0 < nj + nF * (1 - l1r) * pen ->
+  let wn := cd_new_w R_ops RX l1r pen nF tmp nj in
+  coord_cond (tmp - nj * wn) (nF * l1r * pen) (nF * (1 - l1r) * pen) wn 0.
+Proof.
+  intros H1 H2 Hd. unfold cd_new_w; simpl.
+  set (l1 := nF * l1r * pen) in *. set (l2 := nF * (1 - l1r) * pen) in *.
+  set (den := nj + l2) in *.
+  assert (Hi : 0 < / den) by (apply Rinv_0_lt_compat; auto).
+  unfold coord_cond, Rdiv.
+  destruct (Rlt_dec tmp 0) as [Hn | Hp].
+  - rewrite (Rabs_left tmp) by lra. unfold Rmax. destruct (Rle_dec (- tmp - l1) 0) as [Hs | Hb].
+    + (* under the threshold *)
+      replace (-1 * 0 * / den) with 0 by ring. replace (tmp - nj * 0 - l2 * 0) with tmp by ring.
+      repeat split; intros Hw; try lra. rewrite Rabs_left by lra. lra.
+    + assert (Hw : -1 * (- tmp - l1) * / den < 0) by nra.
+      repeat split; intros Hw'; try lra.
+      match goal with |- Rabs ?e <= _ => replace e with 0 by (unfold den; field; unfold den in Hd; lra) end.
+      rewrite Rabs_R0. lra.
+  - assert (Hp' : 0 <= tmp) by lra. rewrite (Rabs_right tmp) by lra. unfold Rmax.
+    destruct (Rle_dec (tmp - l1) 0) as [Hs | Hb].
+    + replace (1 * 0 * / den) with 0 by ring. replace (tmp - nj * 0 - l2 * 0) with tmp by ring.
+      repeat split; intros Hw; try lra. rewrite Rabs_right by lra. lra.
+    + assert (Hw : 0 < 1 * (tmp - l1) * / den) by nra.
+      repeat split; intros Hw'; try lra.
+      match goal with |- Rabs ?e <= _ => replace e with 0 by (unfold den; field; unfold den in Hd; lra) end.
+      rewrite Rabs_R0. lra.
+Qed.
+
+(* ------------------------------------------------------------------------------------------- *)
+(** * Part 7: the multi-task (group) checker *)
+
+Lemma RQ_hd l : Q2R (hd 0%Q l) = hd 0 (RQ l).
+Proof. destruct l; simpl; [apply R_0|reflexivity]. Qed.
+Lemma RQ_tl l : RQ (tl l) = tl (RQ l).
+Proof. destruct l; reflexivity. Qed.
+Lemma R_qtrans p : forall M, RQ2 (qtrans p M) = trans p (RQ2 M).
+Proof.
+  induction p as [|p IH]; intros M; simpl; auto. f_equal.
+  - unfold RQ, RQ2. rewrite !map_map. apply map_ext. intros l. apply RQ_hd.
+  - rewrite IH. f_equal. unfold RQ2. rewrite !map_map. apply map_ext. intros l. apply RQ_tl.
+Qed.
+Lemma R_qcorr_tasks cols : forall Ys Ws,
+  RQ2 (qcorr_tasks cols Ys Ws) = corr_tasks (RQ2 cols) (RQ2 Ys) (RQ2 Ws).
+Proof.
+  induction Ys as [|y Ys IH]; intros [|w Ws]; simpl; auto. rewrite IH. f_equal.
+  rewrite <- R_qresidual. unfold RQ2, RQ. rewrite !map_map. apply map_ext. intros c. apply R_qdot.
+Qed.
+
+Lemma RQ_G C : forall W l2, length C = length W ->
+  RQ (map (fun p => qsub (fst p) (qmul l2 (snd p))) (combine C W)) = vsub (RQ C) (vscale (Q2R l2) (RQ W)).
+Proof.
+  unfold vsub, vadd, vscale. induction C as [|c C IH]; intros [|w W] l2 L; simpl in *; try discriminate; auto.
+  rewrite R_qsub, R_qmul, IH by lia. f_equal. lra.
+Qed.
+
+Lemma sqrt_le_sum l1 E g2 : 0 <= l1 -> 0 <= E -> 0 <= g2 -> g2 <= l1 * l1 + E -> R_sqrt.sqrt g2 <= l1 + R_sqrt.sqrt E.
+Proof.
+  intros H1 HE Hg H. pose proof (sqrt_pos E) as SE. pose proof (sqrt_sqrt E HE) as SS.
+  rewrite <- (sqrt_square (l1 + R_sqrt.sqrt E)) by lra. apply sqrt_le_1; auto; nra.
+Qed.
+
+Lemma group_ok_sound G W l1 e2 : length G = length W -> 0 <= Q2R l1 -> 0 <= Q2R e2 ->
+  group_ok G W l1 e2 = true ->
+  (sq (RQ W) = 0 -> norm (RQ G) <= Q2R l1 + eps_of e2) /\
+  (sq (RQ W) <> 0 -> norm (vsub (RQ G) (vscale (Q2R l1 / norm (RQ W)) (RQ W))) <= eps_of e2).
+Proof.
+  intros L H1 HE. unfold group_ok, eps_of.
+  assert (Eg : Q2R (qdot G G) = sq (RQ G)) by apply R_qdot.
+  assert (Ew : Q2R (qdot W W) = sq (RQ W)) by apply R_qdot.
+  assert (Egw : Q2R (qdot G W) = Rdot (RQ G) (RQ W)) by apply R_qdot.
+  destruct (Qeq_bool (qdot W W) 0) eqn:Z.
+  - apply Qeq_bool_R0 in Z. rewrite Ew in Z. intros H. apply Qle_bool_R in H.
+    rewrite R_qadd, R_qmul, Eg in H. split; intros Hs; [|contradiction].
+    unfold norm. apply sqrt_le_sum; auto. apply sq_nonneg.
+  - apply Qeq_bool_R0_false in Z. rewrite Ew in Z. intros H. split; intros Hs; [contradiction|].
+    set (g2 := sq (RQ G)) in *. set (w2 := sq (RQ W)) in *. set (gw := Rdot (RQ G) (RQ W)) in *.
+    set (N := norm (RQ W)).
+    assert (PN : 0 < N).
+    { unfold N. pose proof (norm_nonneg (RQ W)) as A. pose proof (norm_sq (RQ W)) as B.
+      unfold w2 in Z. destruct (Req_dec (norm (RQ W)) 0) as [E|E]; [rewrite E in B; lra|lra]. }
+    assert (N2 : N * N = w2) by (unfold N, w2; apply norm_sq).
+    set (a := g2 + Q2R l1 * Q2R l1 - Q2R e2).
+    assert (Key : a * N <= 2 * Q2R l1 * gw).
+    { apply orb_true_iff in H. destruct H as [H | H]; apply andb_true_iff in H as [Ha Hb].
+      - apply Qle_bool_R in Ha. rewrite R_qsub, R_qadd, R_qmul, Eg, R_0 in Ha. fold g2 a in Ha.
+        apply orb_true_iff in Hb. destruct Hb as [Hb | Hb]; apply Qle_bool_R in Hb.
+        + rewrite R_0, Egw in Hb. fold gw in Hb. nra.
+        + rewrite !R_qmul, !R_qsub, !R_qadd, !R_qmul, Eg, Ew, Egw in Hb. fold g2 w2 gw a in Hb.
+          replace (Q2R 4) with 4 in Hb by (unfold Q2R; simpl; lra).
+          destruct (Rle_dec 0 gw); [nra|].
+          assert (X : (2 * Q2R l1 * gw) * (2 * Q2R l1 * gw) <= (a * N) * (a * N)) by nra.
+          assert (a * N <= 0) by nra. assert (2 * Q2R l1 * gw <= 0) by nra.
+          destruct (Rle_dec (a * N) (2 * Q2R l1 * gw)); auto. exfalso.
+          assert (0 < (a * N - 2 * Q2R l1 * gw) * (- (a * N) - (2 * Q2R l1 * gw))).
+          { apply Rmult_lt_0_compat; lra. } lra.
+      - apply Qle_bool_R in Ha. rewrite R_0, Egw in Ha. fold gw in Ha.
+        apply Qle_bool_R in Hb.
+        rewrite !R_qmul, !R_qsub, !R_qadd, !R_qmul, Eg, Ew, Egw in Hb. fold g2 w2 gw a in Hb.
+        replace (Q2R 4) with 4 in Hb by (unfold Q2R; simpl; lra).
+        assert (X : (a * N) * (a * N) <= (2 * Q2R l1 * gw) * (2 * Q2R l1 * gw)) by nra.
+        assert (0 <= 2 * Q2R l1 * gw) by nra.
+        destruct (Rle_dec (a * N) (2 * Q2R l1 * gw)); auto. exfalso.
+        assert (0 < (a * N - 2 * Q2R l1 * gw) * (a * N + 2 * Q2R l1 * gw)).
+        { apply Rmult_lt_0_compat; lra. } lra. }
+    unfold norm at 1. rewrite <- (sqrt_square (R_sqrt.sqrt (Q2R e2))) by apply sqrt_pos.
+    rewrite sqrt_sqrt by auto. apply sqrt_le_1; [apply sq_nonneg | auto |].
+    rewrite sq_vsub by (rewrite vscale_length, !RQ_length; auto).
+    rewrite (Rdot_comm (RQ G) (vscale _ _)), Rdot_vscale_l, (Rdot_comm (RQ W) (RQ G)).
+    unfold sq at 2. rewrite Rdot_vscale_l, (Rdot_comm (RQ W) (vscale _ _)), Rdot_vscale_l.
+    fold (sq (RQ W)). fold g2 w2 gw N.
+    assert (E1 : Q2R l1 / N * (Q2R l1 / N * w2) = Q2R l1 * Q2R l1) by (rewrite <- N2; field; lra).
+    rewrite E1.
+    assert (E2 : 2 * (Q2R l1 / N * gw) = 2 * Q2R l1 * gw / N) by (field; lra).
+    rewrite E2.
+    assert (a <= 2 * Q2R l1 * gw / N).
+    { apply Rmult_le_reg_r with N; auto. unfold Rdiv. rewrite Rmult_assoc, Rinv_l by lra. lra. }
+    unfold a in *. lra.
+Qed.
+
+Lemma qtrans_length p : forall M, length (qtrans p M) = p.
+Proof. induction p; intros M; simpl; auto. Qed.
+
+Lemma group_ok_c_sound C W l1 l2 e2 : length C = length W -> 0 <= Q2R l1 -> 0 <= Q2R e2 ->
+  group_ok_c C W l1 l2 e2 = true -> group_cond (RQ C) (Q2R l1) (Q2R l2) (RQ W) (eps_of e2).
+Proof.
+  intros L H1 HE H. unfold group_ok_c in H. unfold group_cond.
+  apply group_ok_sound in H; auto.
+  - rewrite RQ_G in H by auto. exact H.
+  - rewrite map_length, combine_length. lia.
+Qed.
+
+Lemma group_flags_sound l1 l2 : 0 <= Q2R l1 -> forall Cs rows e2s,
+  length rows = length Cs -> length e2s = length Cs -> all_nonneg e2s = true ->
+  forallb (fun b => b) (group_flags Cs rows l1 l2 e2s) = true ->
+  group_all (RQ2 Cs) (RQ2 rows) (Q2R l1) (Q2R l2) (EPS e2s).
+Proof.
+  intros H1. induction Cs as [|C Cs IH]; intros [|r rows] [|e e2s] L1 L2 N H; simpl in *; try discriminate; auto.
+  apply andb_true_iff in H as [Hc H]. apply andb_true_iff in Hc as [Hl Hc]. apply Nat.eqb_eq in Hl.
+  apply all_nonneg_cons in N as [He N].
+  split; [unfold eps_of; apply sqrt_pos|]. split; [now rewrite !RQ_length|].
+  split; [apply group_ok_c_sound; auto|]. apply IH; auto.
+Qed.
+
+Lemma all_len_R2 p M : all_len p M = true -> Forall (fun w => length w = p) (RQ2 M).
+Proof. apply all_len_R. Qed.
+
+(** the multi-task checker: acceptance implies eps-optimality against every other coefficient matrix
+    (for the given targets, i.e. with the intercepts already subtracted) *)
+Lemma mtl_ok_sound cols Ys Ws l1 l2 e2s : mtl_ok cols Ys Ws l1 l2 e2s = true ->
+  forall Ws' : list (list R), length Ws' = length Ys -> Forall (fun w => length w = length cols) Ws' ->
+  mobjective (RQ2 cols) (RQ2 Ys) (Q2R l1) (Q2R l2) Ws'
+  >= mobjective (RQ2 cols) (RQ2 Ys) (Q2R l1) (Q2R l2) (RQ2 Ws)
+     - Rdot (EPS e2s) (rowdist (trans (length cols) Ws') (trans (length cols) (RQ2 Ws))).
+Proof.
+  unfold mtl_ok. intros H Ws' L' HW'.
+  apply andb_true_iff in H as [H Hfl]. apply andb_true_iff in H as [H Hne].
+  apply andb_true_iff in H as [H Hl2]. apply andb_true_iff in H as [H Hl1].
+  apply andb_true_iff in H as [H Hle]. apply andb_true_iff in H as [H Hws].
+  apply andb_true_iff in H as [H Hlw].
+  apply Nat.eqb_eq in Hle, Hlw.
+  apply Qle_bool_R in Hl1, Hl2. rewrite R_0 in Hl1, Hl2.
+  assert (Lc : length (RQ2 cols) = length cols) by (unfold RQ2; apply map_length).
+  rewrite <- Lc.
+  apply group_kkt_eps_optimal; auto.
+  - clear - H. unfold RQ2. induction Ys as [|y Ys IH]; simpl in *; constructor.
+    + apply andb_true_iff in H as [H _]. apply all_len_R in H. now rewrite RQ_length.
+    + apply andb_true_iff in H as [_ H]. auto.
+  - unfold RQ2. rewrite !map_length. auto.
+  - unfold RQ2. rewrite map_length. auto.
+  - rewrite Lc. apply all_len_R2. auto.
+  - rewrite Lc. exact HW'.
+  - rewrite Lc, <- R_qcorr_tasks, <- !R_qtrans.
+    apply group_flags_sound; auto.
+    + now rewrite !qtrans_length.
+    + now rewrite qtrans_length.
 Qed.
